@@ -56,9 +56,9 @@ class Sender:
         self.ctr = (self.ctr + 1) & 0xFFFF
         return wire.frame_header(self.ver, self.dev, mt, self.st, self.ctr) + body
 
-    def message_frames(self, rng, big):
+    def message_frames(self, rng, big, small=False):
         """Frames of the next message(s) of this sender: [(frame, meta)]"""
-        r = rng.random()
+        r = rng.random() if not small else 0.9          # small: one short segmented message per sender
         out = []
         if r < 0.35:
             # one frame with 1..4 unsegmented messages of one message type
@@ -79,7 +79,7 @@ class Sender:
             out.append((self.frame(msgs[0]['mt'], body), {'sent': sent, 'deliver': [msgs], 'seg': 0}))
         else:
             kind = rng.choice(['eth', 'analog', 'generic', 'generic', 'cm', 'if'])
-            total = rng.choice([30, 200, 1500, 4000, 20000, 65535]) if big else rng.choice([30, 200, 900])
+            total = rng.choice([30, 200, 1500, 4000, 20000, 65535]) if big else (rng.choice([30, 200, 900]) if not small else 40)
             p = logical(rng, kind, total, self.ver)
             n = len(p['pl'])
             cap = rng.choice([64, 1476, 8976])
@@ -125,7 +125,7 @@ class Sender:
 def streams(seed, nepisodes, prefix, faults=False, big=True):
     rng = random.Random(seed)
     for i in range(nepisodes):
-        nend = rng.choice([1, 2, 3, 4, 6, 40])          # 40: the table is rehashed while messages are open
+        nend = rng.choice([1, 2, 3, 4, 6, 40, 100, 300])      # many: the table is rehashed / outgrows any small cap while messages are open
         eps = set(rng.sample(ENDPOINT_FAMILY, min(nend, 3)))
         while len(eps) < nend:
             eps.add((rng.choice([1, 2, 513, 65535, rng.randrange(65536)]), rng.choice([0, 1, 7, 255, rng.randrange(256)])))
@@ -135,7 +135,7 @@ def streams(seed, nepisodes, prefix, faults=False, big=True):
         for s in senders:
             q = []
             for _ in range(rng.choice([2, 4, 8]) if nend < 40 else 1):
-                fr = s.message_frames(rng, big and nend < 40)
+                fr = s.message_frames(rng, big and nend < 40, small=(nend >= 40))
                 budget -= sum(len(f) for f, _ in fr)
                 q += fr
                 if budget < 0:
@@ -144,8 +144,13 @@ def streams(seed, nepisodes, prefix, faults=False, big=True):
         ops = [{'op': 'new'}]
         nfault = 0
         held = [None] * len(senders)
+        # with many endpoints every sender first opens its message, so that all of them are in progress at once
+        opening = list(range(len(senders))) if nend >= 40 else []
+        rng.shuffle(opening)
         while any(queues):
-            k = rng.choice([j for j, q in enumerate(queues) if q])
+            k = opening.pop() if opening else rng.choice([j for j, q in enumerate(queues) if q])
+            if not queues[k]:
+                continue
             frame, meta = queues[k].pop(0)
             meta = dict(meta)
             meta['ep'] = k
@@ -156,6 +161,16 @@ def streams(seed, nepisodes, prefix, faults=False, big=True):
                 if r < 0.08:
                     ops.append({'op': 'sent', 'msgs': meta['sent'], 'fault': 'drop'})
                     nfault += 1
+                    if rng.random() < 0.35 and queues[k]:
+                        # a burst: this frame and the next 255 (or 511) frames of the sender are lost, so the next frame that
+                        # arrives carries a counter that continues the run modulo 256 only.  Frames that never arrive need not
+                        # be rendered: the frames still queued are re-stamped with the counters they would have had.
+                        jump = rng.choice([255, 511])
+                        for q in range(len(queues[k])):
+                            f2, m2 = queues[k][q]
+                            c2 = ((f2[6] << 8 | f2[7]) + jump) & 0xFFFF
+                            queues[k][q] = (f2[:6] + [c2 >> 8, c2 & 0xFF] + f2[8:], m2)
+                        ops.append({'op': 'sent', 'msgs': [], 'fault': 'burst%d' % (jump + 1)})
                     continue
                 if r < 0.14 and held[k] is None:
                     held[k] = (frame, meta)
@@ -370,6 +385,13 @@ def arbitrary(seed, nepisodes, prefix, big=True):
         s = Sender(rng, rng.randrange(65536), rng.randrange(256), rng.choice([0, 65534]))
         ops = [{'op': 'new'}]
         budget = 300000
+        if i % 10 == 3:
+            # a message kept open while its segments add up to far more than the 16 bit length field can describe
+            p = logical(rng, 'generic', 1400, s.ver)
+            for k in range(rng.choice([50, 70, 100])):
+                seg = 1 if k == 0 else 2
+                ops.append({'op': 'decode', 'in': s.frame(p['mt'], wire.msg_header(p, seg, len(p['pl'])) + p['pl'])})
+            budget -= 150000
         for _ in range(rng.choice([5, 20, 40])):
             r = rng.random()
             if r < 0.2:
@@ -387,11 +409,15 @@ def arbitrary(seed, nepisodes, prefix, big=True):
                 fr = s.message_frames(rng, big and rng.random() < 0.2)
                 f, _ = rng.choice(fr)
                 b = mutate(rng, f) if rng.random() < 0.7 else f
-                if rng.random() < 0.2 and len(b) > 24:
+                if rng.random() < 0.25 and len(b) > 24:
                     # a length field at an extreme
-                    k = rng.choice([22, 23])
                     b = list(b)
-                    b[k] = rng.choice([0, 0xFF])
+                    if rng.random() < 0.5:
+                        b[22:24] = rng.choice([[0xFF, 0xFF], [0xFF, 0xF0], [0xFF, 0xEF], [0xFF, 0xF8]])
+                    else:
+                        b[rng.choice([22, 23])] = rng.choice([0, 0xFF])
+                    if rng.random() < 0.5:
+                        b = b[:24 + rng.choice([0, 1, 16])]
             budget -= len(b)
             if budget < 0:
                 break
@@ -486,6 +512,10 @@ def frames(seed, nepisodes, prefix):
             frame = wire.frame_header(rng.choice([1, 2, 0x7F, 0xFF]), rng.randrange(65536), mt, rng.randrange(256),
                                       rng.randrange(65536)) + body
             r = rng.random()
+            if rng.random() < 0.08:
+                # a last message whose declared length is at the top of the field (the frame ends long before)
+                frame = frame + wire.rbytes(rng, 12) + [0, rng.choice([1, 0xFF])] + rng.choice([[0xFF, 0xFF], [0xFF, 0xF0], [0xFF, 0xEF]]) + \
+                    wire.rbytes(rng, rng.choice([0, 1, 16, 40]))
             if r < 0.25 and len(frame) > 8:
                 frame = frame[:rng.randrange(8, len(frame) + 1)]          # cut short
             elif r < 0.5:
